@@ -1,4 +1,9 @@
 (** C07: how the two state kinds treat an expired record at load time. *)
 From Verif Require Import Json Outcome State StateSpec DurableSpec DurableReload.
+From Verif Require DurableFail.
 Definition load_linear_keeps_expired := load_linear_keeps_expired_example.
 Definition load_indexed_drops_expired := load_indexed_drops_expired_example.
+(** purged_once_seen: "the item has left memory and storage when the Get returns" holds when NO
+    storage call fails; that the removal of the item alone would succeed is no longer enough
+    (the purge that ends the Get removes every noted id, in the order they were noted). *)
+Definition purged_once_seen_alone_refuted := Verif.DurableFail.purged_once_seen_alone_counterexample.
